@@ -24,6 +24,10 @@
 #include "cctz/zone_info_source.h"
 #include "time_zone_fixed.h"
 #include "time_zone_posix.h"
+#include "harness_zone.h"
+
+namespace vz { long g_factory_calls = 0; }
+namespace cctz_extension { ZoneInfoSourceFactory zone_info_source_factory = vz::Factory; }
 
 // UBSan calls this (weak hook) on every report; we count per case.
 static int g_ub = 0;
